@@ -484,6 +484,17 @@ func handshakeMain(rc *RunCtx) {
 					rc.Fail("C07", "agreement", "one-sided", "client completed (%s) but server failed: %s", cl.tuple(), sv.Err)
 				}
 			}
+			// a conforming independent server (default selection) that
+			// completed with a storrent client running one of the default
+			// option sets: the client has no reason to refuse its reply
+			if p.clientKind == "storrent" && p.serverKind == "ref" && sv.OK && !cl.OK && p.mse && p.refSelect == 0 {
+				for _, d := range []*crypto.Options{crypto.DefaultOptions(false, false), crypto.DefaultOptions(true, false), crypto.DefaultOptions(true, true)} {
+					if *d == *p.copt {
+						rc.Fail("C07", "agreement", "one-sided-ref", "a conforming independent MSE server completed the handshake (pad D of %d bytes), the storrent client (%s) failed: %s", p.refPadC, optString(p.copt), cl.Err)
+						break
+					}
+				}
+			}
 			continue
 		}
 		if !cl.OK {
